@@ -37,6 +37,7 @@ type execution struct {
 	c   Case
 	id  ids
 	pod *api.PodSandbox
+	sub *api.Container // the container as submitted by the runtime (pristine copy)
 
 	mu       sync.Mutex
 	seenCtr  map[int]*api.Container      // pool index -> container shown
@@ -170,6 +171,7 @@ func execute(c Case) ([]*execution, error) {
 			ctx := context.Background()
 			t0 := time.Now()
 			ct := origContainer(c, ex.id.self)
+			ex.sub = proto.Clone(ct).(*api.Container)
 			switch c.Kind {
 			case "create":
 				r, err := f.rt.A.CreateContainer(ctx, &api.CreateContainerRequest{Pod: proto.Clone(ex.pod).(*api.PodSandbox), Container: ct})
